@@ -109,6 +109,10 @@ def run_case(case: dict) -> dict:
                 tag = "SPDX-License-Identifier: " + f["own"]["lic"][0]["text"]
                 fp.write_text(txt.replace(tag, tag + " " + f["_stack"], 1) if case["stacked"] == "spaced"
                               else txt.replace(tag, tag + f["_stack"].replace(" ", ""), 1))
+        for k in range(case.get("bulk", 0)):
+            # more covered files than the machine has processors: every one of them is in the report under every pool size
+            (root / "bulk").mkdir(exist_ok=True)
+            (root / "bulk" / f"f{k:03}.py").write_text(f"# SPDX-FileCopyrightText: {2000 + k % 20} Bulk Holder {k % 3}\n# SPDX-License-Identifier: 0BSD\n\nk = {k}\n")
         if case.get("dup_license"):
             # two texts for one identifier: the tool refuses such a project - under every enumeration order alike
             (root / "LICENSES").mkdir(exist_ok=True)
@@ -168,6 +172,8 @@ def run_case(case: dict) -> dict:
                     rr["spdx"] = one_run("x", ["--root", str(root)], root, d, True)["spdx"]
             runs.append(rr)
             for entry in log[:1]:
+                if not all(isinstance(x, (str, os.PathLike)) for x in entry["order"]):
+                    continue                      # not a pool.map over files: nothing LintPool describes
                 ev["pools"].append({"order": [c13.norm(x, root, d) for x in entry["order"]], "cs": entry["cs"],
                                     "procs": [[c13.norm(x, root, d) for x in s]
                                               for s in pool_procs(logdir, entry["parent"], entry["order"])]})
@@ -185,6 +191,51 @@ def run_case(case: dict) -> dict:
         shutil.rmtree(top, ignore_errors=True)
 
 
+def run_edit_case(case: dict) -> dict:
+    """The history of the process is a hidden parameter too: the tree is linted, its project-wide declaration (or a
+    header) is edited, and it is linted again by the same process under the same root spelling - that result has to be
+    the one a fresh interpreter gives for the edited contents."""
+    import re
+    rnd = random.Random(case["seed"])
+    d = core.scratch_dir("c14e-")
+    ev = {"tid": case["tid"], "label": case["label"], "crash": "", "runs": [], "pools": []}
+    try:
+        root = d / "root"
+        p = projmodel.ensure_cls(case["p"])
+        projmodel.materialise(p, root, rnd, outside=d / "outside")
+        base = ["--root", str(root), "--no-multiprocessing"]
+        warm = [one_run("before the edit|serial", base, root, d, True), one_run("before the edit|pool", ["--root", str(root)], root, d, False)]
+        dep5, toml = root / ".reuse" / "dep5", root / "REUSE.toml"
+        what = "nothing"
+        if dep5.is_file() and re.search(r"^License: \S+", dep5.read_text(), re.M):
+            t = dep5.read_text()
+            t = re.sub(r"^License: (\S+)", lambda m: "License: " + ("ISC" if m.group(1) != "ISC" else "Zlib"), t, count=1, flags=re.M)
+            t = re.sub(r"^Copyright: .*$", "Copyright: 2031 Somebody Else", t, count=1, flags=re.M)
+            dep5.write_text(t)
+            what = "dep5"
+        elif toml.is_file() and "SPDX-License-Identifier = \"" in toml.read_text():
+            t = toml.read_text()
+            t = re.sub(r'SPDX-License-Identifier = "([^"]*)"', lambda m: 'SPDX-License-Identifier = "' + ("ISC" if m.group(1) != "ISC" else "Zlib") + '"', t, count=1)
+            toml.write_text(t)
+            what = "REUSE.toml"
+        else:
+            (root / "added_later.py").write_text("# SPDX-FileCopyrightText: 2031 Somebody Else\n# SPDX-License-Identifier: ISC\n")
+            what = "a new file"
+        ev["label"] = json.dumps({"tree": case["label"], "edited": what})
+        runs = [one_run(f"after editing {what}|fresh interpreter", ["--root", str(root)], root, d, True, runner=core.run_reuse_subprocess),
+                one_run(f"after editing {what}|same process as before the edit, serial", base, root, d, True),
+                one_run(f"after editing {what}|same process as before the edit, pool", ["--root", str(root)], root, d, True)]
+        for r in warm + runs:
+            if r["crash"] and not ev["crash"]:
+                ev["crash"] = r["crash"]
+            r.pop("crash")
+        ev["runs"] = runs
+        ev["editChangedResult"] = warm[0]["lint"] != runs[0]["lint"]
+        return ev
+    finally:
+        shutil.rmtree(d, ignore_errors=True)
+
+
 def run(ctx: core.Ctx) -> int:
     q = ctx.quick
     rnd = random.Random(ctx.seed)
@@ -193,6 +244,8 @@ def run(ctx: core.Ctx) -> int:
         "DocumentNamespace / Created lines (the statement's 'up to ordering, random identifiers and timestamps')",
         "the SPDX DocumentName is the name of the checkout directory by design; when the same contents are checked out under "
         "another name it is treated as a document identifier and renamed before comparing",
+        "the history of the process counts as a hidden parameter: a tree linted, edited and linted again by one process must give what "
+        "a fresh interpreter gives for the edited contents",
         "PYTHONHASHSEED can only be sampled; directory-listing orders are seeded permutations of every os.scandir result",
         "the replay pool executes TLC schedules in real forked processes, one freshly unpickled callable per chunk, "
         "as multiprocessing.Pool.map does",
@@ -238,11 +291,17 @@ def run(ctx: core.Ctx) -> int:
                       "rootname": ["root", "pr[1]oj", "subprojects", "LICENSES", "root", ".reuse", "COPYING", "x.license", "what?*"][i % 9],
                       "copyname": [None, "subprojects", "other", "LICENSES", ".git", "a.spdx", "REUSE.toml", "we[i]rd"][i % 8],
                       "dup_license": i % 6 == 5, "git_submodule": i % 4 == 3,
+                      "bulk": [0, 2 * (os.cpu_count() or 4) + 3, 0, 0, (os.cpu_count() or 4) + 1, 0, 0][i % 7],
                       "scandir_seeds": 2 if q else 4,
                       "scheds": rnd.sample(scheds, min(len(scheds), 3 if q else 8)),
                       "real_workers": [1, 2, 16] if q else [1, 2, 3, 4, 8, 16],
                       "hash_seeds": ([1, 2, 3, 4] if i % 4 == 0 else []) if q else [1, 2, 3, 4, 5, 6]})
     events = ctx.pmap(run_case, cases, chunksize=1, daemon=False)
+    ecases = [{"tid": 100000 + i, "p": p, "label": label, "seed": ctx.seed * 89 + i} for i, (p, label) in enumerate(trees)]
+    eevents = ctx.pmap(run_edit_case, ecases, chunksize=1, daemon=False)
+    ctx.notes["edited_trees"] = {"trees": len(eevents), "edit_changed_the_report": sum(1 for e in eevents if e.pop("editChangedResult", False)),
+                                 "edited": {k: sum(1 for e in eevents if json.loads(e["label"])["edited"] == k) for k in ("dep5", "REUSE.toml", "a new file")}}
+    events += eevents
     n_runs = sum(len(e["runs"]) for e in events)
     for ev in events[:2]:
         ctx.samples.append({"tree": ev["label"], "settings": [r["cfg"] for r in ev["runs"]],
